@@ -545,6 +545,70 @@ func (h *bitHarness) bytesField(length int, tagConst uint64) func(c *bitexec.Ctx
 	}
 }
 
+// stringField: EncodeString → DecodeTag + DecodeString for every content of a given length, in both decoder modes.
+// The encoder's reinterpretation of the string as a byte slice (stringToBytes, an unsafe cast through an
+// anonymous struct) is taken as what its comment says: the same bytes.
+func (h *bitHarness) stringField(length int, tagConst uint64) func(c *bitexec.Ctx) {
+	return func(c *bitexec.Ctx) {
+		src := bitexec.NewBuffer(length, func(i int) bitdom.Val { return c.Input(fmt.Sprintf("b%d", i), 8, false, nil).V })
+		str := bitexec.ByteStr{B: bitexec.Bytes{Buf: src, Len: length, Cap: length}}
+		tag := bitexec.ConstInt(64, true, tagConst)
+		enc, buf := h.newEncoder(length + 16)
+		if h.m.Natives == nil {
+			h.m.Natives = map[string]func(args []bitexec.Value) []bitexec.Value{}
+		}
+		h.m.Natives["(*Encoder).stringToBytes"] = func(args []bitexec.Value) []bitexec.Value {
+			s := args[len(args)-1].(bitexec.ByteStr)
+			return []bitexec.Value{s.B}
+		}
+		h.call("(*Encoder).EncodeString", bitexec.Ptr{Obj: enc}, tag, str)
+		n, ok := constOf(enc.Fields["offset"])
+		c.Check("EncodeString leaves a known cursor", ok && n > 0, fmt.Sprint(enc.Fields["offset"]))
+		if !ok {
+			return
+		}
+		ksz, ok1 := constOf(h.call("SizeOfTagKey", nil, tag)[0])
+		lsz, ok2 := constOf(h.call("SizeOfVarint", nil, bitexec.ConstInt(64, false, uint64(length)))[0])
+		c.Check("bytes written = SizeOfTagKey + SizeOfVarint(len) + len", ok1 && ok2 && ksz+lsz+int64(length) == n, fmt.Sprintf("wrote %d, helpers say %d+%d+%d", n, ksz, lsz, length))
+		for _, mode := range []uint64{h.modeSafe, h.modeFast} {
+			mname := map[uint64]string{h.modeSafe: "safe", h.modeFast: "fast"}[mode]
+			for _, p := range withPadding(buf, int(n)) {
+				dec := h.newDecoder(p, mode)
+				r := h.call("(*Decoder).DecodeTag", bitexec.Ptr{Obj: dec})
+				c.Check("DecodeTag accepts the key", errNil(r[2]), "error "+errDesc(r[2]))
+				if !errNil(r[2]) {
+					continue
+				}
+				wt, okw := constOf(r[1])
+				c.Check("string fields are length-delimited", okw && wt == 2 && sameInt(r[0], tag), fmt.Sprint(r[0], r[1]))
+				r = h.call("(*Decoder).DecodeString", bitexec.Ptr{Obj: dec})
+				c.Check("DecodeString ("+mname+" mode) accepts the encoder's output", errNil(r[1]), "error "+errDesc(r[1]))
+				if !errNil(r[1]) {
+					continue
+				}
+				same := false
+				switch got := r[0].(type) {
+				case bitexec.Str:
+					same = length == 0 && got.S == ""
+				case bitexec.ByteStr:
+					same = got.B.Len == length
+					for i := 0; same && i < length; i++ {
+						if !got.B.Buf.B[got.B.Off+i].Equal(src.B[i]) {
+							same = false
+						}
+					}
+					if mode == h.modeSafe && length > 0 {
+						c.Check("DecodeString (safe mode) returns a copy", got.B.Buf != p.Buf, "the string shares storage with the input buffer")
+					}
+				}
+				c.Check("DecodeString ("+mname+" mode) returns the string written", same, fmt.Sprintf("decoded %v", r[0]))
+				off, oko := constOf(dec.Fields["offset"])
+				c.Check("the decoder consumed exactly the bytes written", oko && off == n, fmt.Sprintf("wrote %d, cursor at %v", n, dec.Fields["offset"]))
+			}
+		}
+	}
+}
+
 // ---- driver -------------------------------------------------------------
 
 func runBitHarness(r *core.Result, prog *core.Program, name, anchor string, maxPaths int, body func(c *bitexec.Ctx)) (paths, checks int) {
@@ -613,6 +677,10 @@ func checkBitRoundTrips(r *core.Result, prog *core.Program, pk *packages.Package
 		l := l
 		add(fmt.Sprintf("EncodeBytes → DecodeTag+DecodeBytes returns the bytes, cursor, size: every content of length %d", l), 10, func(h *bitHarness) func(*bitexec.Ctx) { return h.bytesField(l, 7) })
 	}
+	for _, l := range []int{0, 1, 5, 127, 128} {
+		l := l
+		add(fmt.Sprintf("EncodeString → DecodeTag+DecodeString returns the string, in safe and in fast mode: every content of length %d", l), 10, func(h *bitHarness) func(*bitexec.Ctx) { return h.stringField(l, 7) })
+	}
 	one := uint64(1)
 	for _, k := range bitKinds {
 		k := k
@@ -670,4 +738,68 @@ func checkBitRoundTrips(r *core.Result, prog *core.Program, pk *packages.Package
 	r.Counts["input-space partitions explored"] = totalP
 	r.Counts["partition checks"] = totalC
 	r.Floor("bit-level round-trip harnesses", len(jobs), 100)
+}
+
+// overflowSpec: a 10-byte varint whose last byte carries anything above bit 63 does not fit in 64 bits. A
+// reference parser (protowire.ConsumeVarint) reports it as malformed; so must every reader protodump goes
+// through. bit selects which of the excess bits (1..6 of the 10th byte) is set; everything else is arbitrary.
+func (h *bitHarness) overflowSpec(bit int, via string) func(c *bitexec.Ctx) {
+	return func(c *bitexec.Ctx) {
+		buf := &bitexec.Buffer{}
+		if via == "(*Decoder).DecodeBytes" {
+			// as the length prefix of a field: no key needed, DecodeBytes starts at the length
+		}
+		for i := 0; i < 10; i++ {
+			fixed := map[int]bool{7: i < 9}
+			if i == 9 {
+				fixed[bit] = true
+			}
+			by := c.Input(fmt.Sprintf("b%d", i), 8, false, fixed)
+			buf.B = append(buf.B, by.V)
+		}
+		for _, p := range withPadding(buf, 10) {
+			var errv bitexec.Value
+			switch via {
+			case "DecodeVarint":
+				errv = h.call("DecodeVarint", nil, p)[2]
+			default:
+				dec := h.newDecoder(p, h.modeSafe)
+				out := h.call(via, bitexec.Ptr{Obj: dec})
+				errv = out[len(out)-1]
+			}
+			e, isErr := errv.(bitexec.Err)
+			c.Check(via+" reports a varint that does not fit in 64 bits", isErr && !e.Nil, "accepted (error "+errDesc(errv)+")")
+		}
+	}
+}
+
+// checkVarintOverflow (T10): see overflowSpec.
+func checkVarintOverflow(r *core.Result, prog *core.Program, pk *packages.Package) int {
+	n := 0
+	for _, via := range []string{"DecodeVarint", "(*Decoder).DecodeInt64", "(*Decoder).DecodeTag", "(*Decoder).DecodeBytes"} {
+		for bit := 1; bit <= 6; bit++ {
+			h := newBitHarness(pk)
+			name := fmt.Sprintf("%s rejects a 10-byte varint with bit %d of its last byte set (value ≥ 2^%d)", via, bit, 63+bit)
+			paths, _, failed, exhausted := bitexec.Explore(2000, h.overflowSpec(bit, via))
+			detail := ""
+			if exhausted {
+				detail = "undecided: too many partitions"
+			}
+			if len(failed) > 0 {
+				f := failed[0]
+				parts := firstN(f.Failures, 2)
+				if f.Abort != "" {
+					parts = append([]string{"stopped: " + f.Abort}, parts...)
+				}
+				detail = fmt.Sprintf("%d of %d partitions fail; e.g. for inputs with {%s}: %s", len(failed), paths, f.Cube, strings.Join(parts, "; "))
+			}
+			pos := ""
+			if fn := h.m.Lookup("DecodeVarint"); fn != nil {
+				pos = prog.Pos(h.m.Decls[fn].Pos())
+			}
+			r.Ob("T10", name, pos, len(failed) == 0 && !exhausted && paths > 0, detail+" — a reference parser reports this input as malformed; accepting it drops the excess bits silently (a length prefix of 2^64+5 is read as 5)")
+			n++
+		}
+	}
+	return n
 }
